@@ -1,0 +1,279 @@
+//! Verification hooks (feature `verif-hooks`, non-default, add-only).
+//!
+//! Thin public wrappers, containing no logic of their own, over crate-private functions so that
+//! an external harness can run them on chosen inputs. Polynomials cross this boundary as plain
+//! `[i32; 256]` arrays. Nothing here is part of the supported API.
+
+use crate::types::{PrivateKey, PublicKey, R, T};
+use crate::{conversion, encodings, hashing, helpers, high_low, ntt};
+
+/// A polynomial as a plain array
+pub type Poly = [i32; 256];
+
+fn r_of<const N: usize>(a: &[Poly; N]) -> [R; N] { core::array::from_fn(|i| R(a[i])) }
+fn t_of<const N: usize>(a: &[Poly; N]) -> [T; N] { core::array::from_fn(|i| T(a[i])) }
+fn of_r<const N: usize>(a: &[R; N]) -> [Poly; N] { core::array::from_fn(|i| a[i].0) }
+fn of_t<const N: usize>(a: &[T; N]) -> [Poly; N] { core::array::from_fn(|i| a[i].0) }
+
+/// `helpers::partial_reduce64`
+#[must_use]
+pub fn partial_reduce64(a: i64) -> i32 { helpers::partial_reduce64(a) }
+/// `helpers::partial_reduce32`
+#[must_use]
+pub fn partial_reduce32(a: i32) -> i32 { helpers::partial_reduce32(a) }
+/// `helpers::full_reduce32`
+#[must_use]
+pub fn full_reduce32(a: i32) -> i32 { helpers::full_reduce32(a) }
+/// `helpers::center_mod`
+#[must_use]
+pub fn center_mod(a: i32) -> i32 { helpers::center_mod(a) }
+/// `helpers::mont_reduce`
+#[must_use]
+pub fn mont_reduce(a: i64) -> i32 { helpers::mont_reduce(a) }
+/// `helpers::bit_length`
+#[must_use]
+pub fn bit_length(a: i32) -> usize { helpers::bit_length(a) }
+/// `helpers::ZETA_TABLE_MONT`
+#[must_use]
+pub fn zeta_table_mont() -> [i32; 256] { helpers::ZETA_TABLE_MONT }
+/// `helpers::infinity_norm`
+#[must_use]
+pub fn infinity_norm<const N: usize>(w: &[Poly; N]) -> i32 { helpers::infinity_norm(&r_of(w)) }
+/// `helpers::is_in_range`
+#[must_use]
+pub fn is_in_range(w: &Poly, lo: i32, hi: i32) -> bool { helpers::is_in_range(&R(*w), lo, hi) }
+/// `helpers::to_mont`
+#[must_use]
+pub fn to_mont<const N: usize>(w: &[Poly; N]) -> [Poly; N] { of_t(&helpers::to_mont(&t_of(w))) }
+/// `helpers::mat_vec_mul`
+#[must_use]
+pub fn mat_vec_mul<const K: usize, const L: usize>(
+    a_hat: &[[Poly; L]; K], u_hat: &[Poly; L],
+) -> [Poly; K] {
+    let a: [[T; L]; K] = core::array::from_fn(|i| t_of(&a_hat[i]));
+    of_t(&helpers::mat_vec_mul(&a, &t_of(u_hat)))
+}
+/// `helpers::add_vector_ntt`
+#[must_use]
+pub fn add_vector_ntt<const N: usize>(v: &[Poly; N], w: &[Poly; N]) -> [Poly; N] {
+    of_r(&helpers::add_vector_ntt(&r_of(v), &r_of(w)))
+}
+
+/// `ntt::ntt`
+#[must_use]
+pub fn ntt<const N: usize>(w: &[Poly; N]) -> [Poly; N] { of_t(&ntt::ntt(&r_of(w))) }
+/// `ntt::inv_ntt`
+#[must_use]
+pub fn inv_ntt<const N: usize>(w: &[Poly; N]) -> [Poly; N] { of_r(&ntt::inv_ntt(&t_of(w))) }
+
+/// `high_low::power2round`
+#[must_use]
+pub fn power2round<const N: usize>(r: &[Poly; N]) -> ([Poly; N], [Poly; N]) {
+    let (r1, r0) = high_low::power2round(&r_of(r));
+    (of_r(&r1), of_r(&r0))
+}
+/// `high_low::decompose`
+#[must_use]
+pub fn decompose(gamma2: i32, r: i32) -> (i32, i32) { high_low::decompose(gamma2, r) }
+/// `high_low::high_bits`
+#[must_use]
+pub fn high_bits(gamma2: i32, r: i32) -> i32 { high_low::high_bits(gamma2, r) }
+/// `high_low::low_bits`
+#[must_use]
+pub fn low_bits(gamma2: i32, r: i32) -> i32 { high_low::low_bits(gamma2, r) }
+/// `high_low::make_hint`
+#[must_use]
+pub fn make_hint(gamma2: i32, z: i32, r: i32) -> bool { high_low::make_hint(gamma2, z, r) }
+/// `high_low::use_hint`
+#[must_use]
+pub fn use_hint(gamma2: i32, h: i32, r: i32) -> i32 { high_low::use_hint(gamma2, h, r) }
+
+/// `conversion::coeff_from_three_bytes`
+///
+/// # Errors
+/// As the wrapped function.
+pub fn coeff_from_three_bytes<const CTEST: bool>(b: [u8; 3]) -> Result<i32, &'static str> {
+    conversion::coeff_from_three_bytes::<CTEST>(b)
+}
+/// `conversion::coeff_from_half_byte`
+///
+/// # Errors
+/// As the wrapped function.
+pub fn coeff_from_half_byte<const CTEST: bool>(eta: i32, b: u8) -> Result<i32, &'static str> {
+    conversion::coeff_from_half_byte::<CTEST>(eta, b)
+}
+/// `conversion::simple_bit_pack`
+pub fn simple_bit_pack(w: &Poly, b: i32, out: &mut [u8]) {
+    conversion::simple_bit_pack(&R(*w), b, out);
+}
+/// `conversion::bit_pack`
+pub fn bit_pack(w: &Poly, a: i32, b: i32, out: &mut [u8]) {
+    conversion::bit_pack(&R(*w), a, b, out);
+}
+/// `conversion::simple_bit_unpack`
+///
+/// # Errors
+/// As the wrapped function.
+pub fn simple_bit_unpack(v: &[u8], b: i32) -> Result<Poly, &'static str> {
+    conversion::simple_bit_unpack(v, b).map(|r| r.0)
+}
+/// `conversion::bit_unpack`
+///
+/// # Errors
+/// As the wrapped function.
+pub fn bit_unpack(v: &[u8], a: i32, b: i32) -> Result<Poly, &'static str> {
+    conversion::bit_unpack(v, a, b).map(|r| r.0)
+}
+/// `conversion::hint_bit_pack`
+pub fn hint_bit_pack<const CTEST: bool, const K: usize>(omega: i32, h: &[Poly; K], y: &mut [u8]) {
+    conversion::hint_bit_pack::<CTEST, K>(omega, &r_of(h), y);
+}
+/// `conversion::hint_bit_unpack`
+///
+/// # Errors
+/// As the wrapped function.
+pub fn hint_bit_unpack<const K: usize>(omega: i32, y: &[u8]) -> Result<[Poly; K], &'static str> {
+    conversion::hint_bit_unpack::<K>(omega, y).map(|h| of_r(&h))
+}
+
+/// `encodings::pk_encode`
+#[must_use]
+pub fn pk_encode<const K: usize, const PK_LEN: usize>(
+    rho: &[u8; 32], t1: &[Poly; K],
+) -> [u8; PK_LEN] {
+    encodings::pk_encode::<K, PK_LEN>(rho, &r_of(t1))
+}
+/// `encodings::pk_decode`
+///
+/// # Errors
+/// As the wrapped function.
+pub fn pk_decode<const K: usize, const PK_LEN: usize>(
+    pk: &[u8; PK_LEN],
+) -> Result<([u8; 32], [Poly; K]), &'static str> {
+    encodings::pk_decode::<K, PK_LEN>(pk).map(|(rho, t1)| (*rho, of_r(&t1)))
+}
+/// `encodings::sk_encode`
+#[must_use]
+#[allow(clippy::too_many_arguments)]
+pub fn sk_encode<const K: usize, const L: usize, const SK_LEN: usize>(
+    eta: i32, rho: &[u8; 32], k: &[u8; 32], tr: &[u8; 64], s_1: &[Poly; L], s_2: &[Poly; K],
+    t_0: &[Poly; K],
+) -> [u8; SK_LEN] {
+    encodings::sk_encode::<K, L, SK_LEN>(eta, rho, k, tr, &r_of(s_1), &r_of(s_2), &r_of(t_0))
+}
+/// `encodings::sk_decode`
+///
+/// # Errors
+/// As the wrapped function.
+#[allow(clippy::type_complexity)]
+pub fn sk_decode<const K: usize, const L: usize, const SK_LEN: usize>(
+    eta: i32, sk: &[u8; SK_LEN],
+) -> Result<([u8; 32], [u8; 32], [u8; 64], [Poly; L], [Poly; K], [Poly; K]), &'static str> {
+    encodings::sk_decode::<K, L, SK_LEN>(eta, sk)
+        .map(|(rho, k, tr, s1, s2, t0)| (*rho, *k, *tr, of_r(&s1), of_r(&s2), of_r(&t0)))
+}
+/// `encodings::sig_encode`
+#[must_use]
+pub fn sig_encode<
+    const CTEST: bool,
+    const K: usize,
+    const L: usize,
+    const LAMBDA_DIV4: usize,
+    const SIG_LEN: usize,
+>(
+    gamma1: i32, omega: i32, c_tilde: &[u8; LAMBDA_DIV4], z: &[Poly; L], h: &[Poly; K],
+) -> [u8; SIG_LEN] {
+    encodings::sig_encode::<CTEST, K, L, LAMBDA_DIV4, SIG_LEN>(
+        gamma1,
+        omega,
+        c_tilde,
+        &r_of(z),
+        &r_of(h),
+    )
+}
+/// `encodings::sig_decode`
+///
+/// # Errors
+/// As the wrapped function.
+#[allow(clippy::type_complexity)]
+pub fn sig_decode<
+    const K: usize,
+    const L: usize,
+    const LAMBDA_DIV4: usize,
+    const SIG_LEN: usize,
+>(
+    gamma1: i32, omega: i32, sigma: &[u8; SIG_LEN],
+) -> Result<([u8; LAMBDA_DIV4], [Poly; L], Option<[Poly; K]>), &'static str> {
+    encodings::sig_decode::<K, L, LAMBDA_DIV4, SIG_LEN>(gamma1, omega, sigma)
+        .map(|(c, z, h)| (c, of_r(&z), h.map(|h| of_r(&h))))
+}
+/// `encodings::w1_encode`
+pub fn w1_encode<const K: usize>(gamma2: i32, w1: &[Poly; K], out: &mut [u8]) {
+    encodings::w1_encode::<K>(gamma2, &r_of(w1), out);
+}
+
+/// `hashing::sample_in_ball`
+#[must_use]
+pub fn sample_in_ball<const CTEST: bool>(tau: i32, rho: &[u8]) -> Poly {
+    hashing::sample_in_ball::<CTEST>(tau, rho).0
+}
+/// `hashing::rej_ntt_poly`
+#[must_use]
+pub fn rej_ntt_poly<const CTEST: bool>(rhos: &[&[u8]]) -> Poly {
+    hashing::rej_ntt_poly::<CTEST>(rhos).0
+}
+/// `hashing::rej_bounded_poly`
+#[must_use]
+pub fn rej_bounded_poly<const CTEST: bool>(eta: i32, rhos: &[&[u8]]) -> Poly {
+    hashing::rej_bounded_poly::<CTEST>(eta, rhos).0
+}
+/// `hashing::expand_a`
+#[must_use]
+pub fn expand_a<const CTEST: bool, const K: usize, const L: usize>(
+    rho: &[u8; 32],
+) -> [[Poly; L]; K] {
+    let a = hashing::expand_a::<CTEST, K, L>(rho);
+    core::array::from_fn(|i| of_t(&a[i]))
+}
+/// `hashing::expand_s`
+#[must_use]
+pub fn expand_s<const CTEST: bool, const K: usize, const L: usize>(
+    eta: i32, rho: &[u8; 64],
+) -> ([Poly; L], [Poly; K]) {
+    let (s1, s2) = hashing::expand_s::<CTEST, K, L>(eta, rho);
+    (of_r(&s1), of_r(&s2))
+}
+/// `hashing::expand_mask`
+#[must_use]
+pub fn expand_mask<const L: usize>(gamma1: i32, rho: &[u8; 64], mu: u16) -> [Poly; L] {
+    of_r(&hashing::expand_mask::<L>(gamma1, rho, mu))
+}
+/// `hashing::hash_message`
+#[must_use]
+pub fn hash_message(message: &[u8], ph: &crate::Ph, phm: &mut [u8; 64]) -> ([u8; 11], usize) {
+    hashing::hash_message(message, ph, phm)
+}
+
+/// The fields of a public key struct: `(rho, tr, t1_d2_hat_mont)`
+#[must_use]
+pub fn dump_public_key<const K: usize, const L: usize>(
+    pk: &PublicKey<K, L>,
+) -> ([u8; 32], [u8; 64], [Poly; K]) {
+    (pk.rho, pk.tr, of_t(&pk.t1_d2_hat_mont))
+}
+/// The fields of a private key struct:
+/// `(rho, cap_k, tr, s_1_hat_mont, s_2_hat_mont, t_0_hat_mont)`
+#[must_use]
+#[allow(clippy::type_complexity)]
+pub fn dump_private_key<const K: usize, const L: usize>(
+    sk: &PrivateKey<K, L>,
+) -> ([u8; 32], [u8; 32], [u8; 64], [Poly; L], [Poly; K], [Poly; K]) {
+    (
+        sk.rho,
+        sk.cap_k,
+        sk.tr,
+        of_t(&sk.s_1_hat_mont),
+        of_t(&sk.s_2_hat_mont),
+        of_t(&sk.t_0_hat_mont),
+    )
+}
